@@ -175,8 +175,12 @@ def reluUnitIntegral (be : Backend α) (p : PdfV R Dx α) (Wi : Vec (Dx + 1) α)
 def reluIntegrateNoiseDiagonal : NoiseDiagFn α := fun be c p =>
   truncNoiseFlat (tab fun k => reluUnitIntegral be p (c.W k))
 
-/-- `_get_omega_dagger` (override, static) -/
-def reluGetOmegaDagger : OmegaDaggerFn α := fun be p Wi => reluUnitIntegral be p Wi
+/-- `_get_omega_dagger` (override, static): `tp_h.integrate('x')[:,0] / tp_h.integral()`, the mean of `h` given
+`h ≥ 0` (the tangent point that maximises the bound of `k_func`) -/
+def reluGetOmegaDagger : OmegaDaggerFn α := fun be p Wi =>
+  let E := reluUnitIntegral be p Wi
+  let Z := heavisideUnitIntegral be p Wi
+  tab fun r => E r / Z r
 
 /-- `k_func`: `Zh c0 + c1 (Eh − Zh ω)` with `c0 = log(1 + ω)`, `c1 = 1/(1 + ω)`
 (tangent upper bound of `log(1 + h)` at `ω`, integrated over `h ≥ 0`) -/
